@@ -236,7 +236,7 @@ def build_world(world, config, groups, thorough=True, stacks=None, quiet=False):
     bindir = os.path.join(BUILD, 'bin', config)
     os.makedirs(bindir, exist_ok=True)
     exe = os.path.join(bindir, world)
-    lkey = hashlib.sha256('\0'.join([o + ':' + file_hash(o) for o in sorted(objs)] + [config]).encode()).hexdigest()
+    lkey = hashlib.sha256('\0'.join([o + ':' + file_hash(o) for o in sorted(objs)] + [config, file_hash(__file__)]).encode()).hexdigest()
     lfile = exe + '.lkey'
     try:
         uptodate = open(lfile).read() == lkey and os.path.exists(exe)
@@ -252,7 +252,10 @@ def build_world(world, config, groups, thorough=True, stacks=None, quiet=False):
         if threads:
             lflags += ['-Wl,--wrap=pthread_mutex_lock', '-Wl,--wrap=pthread_mutex_unlock',
                        '-Wl,--wrap=pthread_mutex_trylock', '-Wl,--wrap=__cxa_guard_acquire',
-                       '-Wl,--wrap=__cxa_guard_release', '-Wl,--wrap=__cxa_guard_abort', '-Wl,--wrap=pthread_once']
+                       '-Wl,--wrap=__cxa_guard_release', '-Wl,--wrap=__cxa_guard_abort', '-Wl,--wrap=pthread_once',
+                       '-Wl,--wrap=pthread_rwlock_rdlock', '-Wl,--wrap=pthread_rwlock_wrlock',
+                       '-Wl,--wrap=pthread_rwlock_unlock', '-Wl,--wrap=pthread_rwlock_tryrdlock',
+                       '-Wl,--wrap=pthread_rwlock_trywrlock', '-Wl,--wrap=pthread_cond_wait']
         if threads:
             lflags += ['-rdynamic', '-ldl']
         cmd = ['g++', '-o', exe, '@' + rsp] + lflags + ['-pthread']
